@@ -204,10 +204,7 @@ func (o *Obligation) modelFor(timeout time.Duration, workdir string) map[string]
 
 // solveOne: z3-new only (models), used for witness extraction.
 func solveOne(query string, timeout time.Duration, workdir, tag string) SolverResult {
-	f := filepath.Join(workdir, sanitize(tag)+".smt2")
-	if len(filepath.Base(f)) > 200 {
-		f = filepath.Join(workdir, sanitize(tag)[:150]+fmt.Sprintf("_%d.smt2", len(tag)))
-	}
+	f := queryFile(workdir, tag)
 	os.WriteFile(f, []byte(query), 0o644)
 	for _, s := range []string{"z3-new", "z3"} {
 		cmd := exec.Command(s, "-smt2", fmt.Sprintf("-T:%d", int(timeout.Seconds())+1), f)
